@@ -1,4 +1,5 @@
 import os
+from concurrent.futures import ThreadPoolExecutor
 
 from .props import HDR, standard
 
@@ -18,24 +19,37 @@ def run(ctx):
 
     def stages(ctx, mult, suffix, off):
         hdr = HDR.format(imports="model.C06_model model.C06_run")
-        real_stage = ctx.stage
 
         def stage(name, *a, **kw):
             if only and not any(name.startswith("c06" + o) for o in only):
                 return None
-            return real_stage(name, *a, **kw)
-        ctx_stage = stage
-        ctx_stage("c06page" + suffix, "services/keep-balance", "main", ["C06/zz_verif_c06_page_test.go"], "TestVerifC06Page$",
-                  npage * mult, hdr, seed_offset=off, shard=50 if q else 200, env={"VERIF_STAGE": "c06page" + suffix}, timeout=1500, replace=replace)
-        ctx_stage("c06sweep" + suffix, "services/keep-balance", "main",
+            return ctx.stage(name + suffix, *a, seed_offset=off, timeout=1500, replace=replace,
+                             env={"VERIF_STAGE": name + suffix}, **kw)
+
+        def keep_balance():   # same package, same overlay file: one after the other
+            stage("c06page", "services/keep-balance", "main", ["C06/zz_verif_c06_page_test.go"], "TestVerifC06Page$",
+                  npage * mult, hdr, shard=50 if q else 200)
+            stage("c06sweep", "services/keep-balance", "main",
                   ["C06/zz_verif_c06_sweep_test.go", "C06/zz_verif_c06_page_test.go", "C05/zz_verif_c05_test.go"], "TestVerifC06Sweep$",
-                  nconf * mult, hdr, seed_offset=off, shard=100, env={"VERIF_STAGE": "c06sweep" + suffix}, timeout=1500, replace=replace)
-        ctx_stage("c06handler" + suffix, "services/keepstore", "main", ["C06/zz_verif_c06_handler_test.go"], "TestVerifC06Handler$",
-                  (60 if q else 1500) * mult, hdr, seed_offset=off, shard=100, env={"VERIF_STAGE": "c06handler" + suffix}, timeout=1500, replace=replace)
-        ctx_stage("c06idxa" + suffix, "sdk/go/arvados", "arvados", ["C06/zz_verif_c06_idxa_test.go"], "TestVerifC06IndexA$",
-                  nidx * mult, hdr, seed_offset=off, shard=100, env={"VERIF_STAGE": "c06idxa" + suffix}, timeout=1500, replace=replace)
-        ctx_stage("c06idxk" + suffix, "sdk/go/keepclient", "keepclient", ["C06/zz_verif_c06_idxk_test.go"], "TestVerifC06IndexK$",
-                  nidx * mult, hdr, seed_offset=off, shard=100, env={"VERIF_STAGE": "c06idxk" + suffix}, timeout=1500, replace=replace)
+                  nconf * mult, hdr, shard=100)
+
+        def handler():
+            stage("c06handler", "services/keepstore", "main", ["C06/zz_verif_c06_handler_test.go"], "TestVerifC06Handler$",
+                  (60 if q else 1500) * mult, hdr, shard=100)
+
+        def idxa():
+            stage("c06idxa", "sdk/go/arvados", "arvados", ["C06/zz_verif_c06_idxa_test.go"], "TestVerifC06IndexA$",
+                  nidx * mult, hdr, shard=100)
+
+        def idxk():
+            stage("c06idxk", "sdk/go/keepclient", "keepclient", ["C06/zz_verif_c06_idxk_test.go"], "TestVerifC06IndexK$",
+                  nidx * mult, hdr, shard=100)
+
+        # the four packages are independent: run their stages side by side
+        with ThreadPoolExecutor(max_workers=4) as ex:
+            for f in [ex.submit(g) for g in (keep_balance, handler, idxa, idxk)]:
+                f.result()
+        ctx.stages.sort(key=lambda st: st.name)
     return standard(ctx, "C06", ["model/C06_run.vo"], stages,
                     rule="c06page: paging histories, population 0-70 (thorough: -200), 6 timestamp patterns (distinct, all equal, runs longer than / equal to the page, few values, random), "
                          "page sizes 1..N+1 and 'maximum', event schedules none/sparse/busy/same-timestamp, rows inserted with old timestamps in 1/10, one failing request or callback in 1/4 "
